@@ -934,7 +934,7 @@ Helper::SessionBase::HelperServerClosed(SessionBase * const srv)
 }
 
 Helper::Xaction *
-Helper::Session::popRequest(const int request_number)
+Helper::Session::popRequest(const uint64_t request_number)
 {
     Xaction *r = nullptr;
     if (parent->childs.concurrency) {
@@ -1072,10 +1072,10 @@ helperHandleRead(const Comm::ConnectionPointer &conn, char *, size_t len, Comm::
         }
 
         if (!srv->ignoreToEom && !srv->replyXaction) {
-            int i = 0;
+            uint64_t i = 0; // channel-IDs are as wide as nextRequestId
             if (hlp->childs.concurrency) {
                 char *e = nullptr;
-                i = strtol(msg, &e, 10);
+                i = strtoull(msg, &e, 10);
                 // Do we need to check for e == msg? Means wrong response from helper.
                 // Will be dropped as "unexpected reply on channel 0"
                 needsMore = !(xisspace(*e) || (eom && e == eom));
